@@ -3,7 +3,6 @@ package main
 // C06 second-line rules: LOOP-CENSUS, REC-CENSUS, C06-PANIC, C06-BOUNDS.
 
 import (
-	"os"
 	"fmt"
 	"go/ast"
 	"go/token"
@@ -689,6 +688,9 @@ func ruleOptionalDeref(c *Ctx) {
 						guarded = true
 					}
 				}
+				if !guarded {
+					guarded = nilGuardedByCallers(c, f, src, 0)
+				}
 				c.check(guarded, "N-NIL", funcName(f), "optional part of a posting dereferenced behind a nil test: "+fieldVarOfAddr(src).Name(), ins.Pos(),
 					"the dereference is reached only when the field was tested to be non-nil",
 					"posting."+fieldVarOfAddr(src).Name()+" is dereferenced on a path without a nil test of that field: postings without that part (inferred amounts, lines the parser only partly understood) make the server panic; there is no recover")
@@ -702,7 +704,7 @@ func ruleOptionalDeref(c *Ctx) {
 // using it (or an offset of it) to index or slice a *different* string is in bounds only by coincidence (case
 // mapping, trimming and replacement change byte lengths) - an index out of range panics, and there is no recover.
 func ruleCrossIndex(c *Ctx) {
-	n, nRange := 0, 0
+	n, nRange, nUses := 0, 0, 0
 	for _, f := range c.P.ModuleFuncs() {
 		// positions delivered by `for pos, r := range s`
 		origin := map[ssa.Value]ssa.Value{} // position value -> the string ranged over
@@ -722,11 +724,22 @@ func ruleCrossIndex(c *Ctx) {
 				}
 			}
 		}
+		for _, b := range f.Blocks {
+			for _, ins := range b.Instrs {
+				switch x := ins.(type) {
+				case *ssa.Index:
+					if bt, ok := x.X.Type().Underlying().(*types.Basic); ok && bt.Info()&types.IsString != 0 {
+						nUses++
+					}
+				case *ssa.Slice:
+					if bt, ok := x.X.Type().Underlying().(*types.Basic); ok && bt.Info()&types.IsString != 0 {
+						nUses++
+					}
+				}
+			}
+		}
 		if len(origin) == 0 {
 			continue
-		}
-		if os.Getenv("HLDEBUG") == "xstr" {
-			fmt.Fprintf(os.Stderr, "XSTR %s origins=%d\n", funcName(f), len(origin))
 		}
 		for _, b := range f.Blocks {
 			for _, ins := range b.Instrs {
@@ -753,9 +766,6 @@ func ruleCrossIndex(c *Ctx) {
 				if str == nil || idx == nil {
 					continue
 				}
-				if os.Getenv("HLDEBUG") == "xstr" {
-					fmt.Fprintf(os.Stderr, "   use %s idx=%s slice=%d\n", ins.String(), idx.Name(), len(backSlice(idx)))
-				}
 				for v := range backSlice(idx) {
 					src, ok := origin[v]
 					if !ok {
@@ -770,6 +780,94 @@ func ruleCrossIndex(c *Ctx) {
 			}
 		}
 	}
-	c.census("U-XSTR", "string range loops that deliver a position", nRange, 1)
+	c.census("U-XSTR", "string index and slice expressions examined", nUses, 20)
+	c.note("U-XSTR: %d string range loops deliver a position", nRange)
 	c.note("U-XSTR: %d uses of a range position as a string index", n)
+}
+
+// nilGuardedByCallers: the posting whose optional field is dereferenced is a parameter of f (pointer, or a value
+// copy), f has call sites, and every call site is reached only behind a nil test of that field of the posting it
+// passes (or passes its own parameter on and is guarded likewise).
+func nilGuardedByCallers(c *Ctx, f *ssa.Function, src *ssa.FieldAddr, depth int) bool {
+	if depth > 2 {
+		return false
+	}
+	// the parameter the posting address stands for
+	var param *ssa.Parameter
+	switch b := src.X.(type) {
+	case *ssa.Parameter:
+		param = b
+	case *ssa.Alloc:
+		for _, r := range *b.Referrers() {
+			if st, ok := r.(*ssa.Store); ok && st.Addr == ssa.Value(b) {
+				if p, ok := st.Val.(*ssa.Parameter); ok {
+					param = p
+				}
+			}
+		}
+	}
+	if param == nil {
+		return false
+	}
+	idx := -1
+	for i, q := range f.Params {
+		if q == param {
+			idx = i
+		}
+	}
+	sites := (cgView{c}).callersOf(f)
+	if idx < 0 || len(sites) == 0 {
+		return false
+	}
+	field := src.Field
+	for _, site := range sites {
+		args := site.Common().Args
+		if idx >= len(args) {
+			return false
+		}
+		arg := args[idx]
+		// the address of the posting at the call site
+		addr := arg
+		if ld, ok := arg.(*ssa.UnOp); ok && ld.Op == token.MUL {
+			addr = ld.X // passed by value: a copy of *addr
+		}
+		ok := false
+		for _, cc := range controlCondsPol(site.Block()) {
+			bo, isB := cc.Cond.(*ssa.BinOp)
+			if !isB {
+				continue
+			}
+			isNilCmp := func(x, y ssa.Value) bool {
+				k, isK := y.(*ssa.Const)
+				if !isK || !k.IsNil() {
+					return false
+				}
+				l, isL := x.(*ssa.UnOp)
+				if !isL || l.Op != token.MUL {
+					return false
+				}
+				fa, isFA := l.X.(*ssa.FieldAddr)
+				return isFA && fa.Field == field && typeHasSuffix(fa.X.Type(), "ast.Posting") && (fa.X == addr || sameAddr(fa.X, addr, 0) || sameLoad(fa.X, addr))
+			}
+			if (isNilCmp(bo.X, bo.Y) || isNilCmp(bo.Y, bo.X)) && ((bo.Op == token.NEQ && cc.Taken) || (bo.Op == token.EQL && !cc.Taken)) {
+				ok = true
+			}
+		}
+		if !ok {
+			// the caller hands its own parameter on
+			g := site.Parent()
+			var fa2 *ssa.FieldAddr
+			for _, b := range g.Blocks {
+				for _, ins := range b.Instrs {
+					if x, isFA := ins.(*ssa.FieldAddr); isFA && x.Field == field && typeHasSuffix(x.X.Type(), "ast.Posting") && (x.X == addr || sameAddr(x.X, addr, 0)) {
+						fa2 = x
+					}
+				}
+			}
+			if fa2 == nil || !nilGuardedByCallers(c, g, fa2, depth+1) {
+				return false
+			}
+		}
+	}
+	return true
 }
